@@ -472,6 +472,7 @@ CONSTANTS
     CallModes = {modes}
     AugOn = {aug}
     PassOn = {passon}
+    AnnOn = {ann}
     ChainOn = {chain}
     LoopOn = {loop}
     MaxToks = 100
@@ -491,26 +492,26 @@ ALLSCOPES = '{"plain", "import", "closure", "both"}'
 PROFILES = {
     # every construct the translator claims to support, shallow expressions: control flow dominates
     "core1": dict(arities="{1, 2}", locals='{"y"}', consts='{"K"}', un='{"neg"}', bin='{"add", "sub", "mul", "div"}',
-                  chains="TRUE", boolon="{}", ite="TRUE", calls='{"sub2", "pick", "loc", "ratio", "dflt"}', modes=ALLMODES, scopes=ALLSCOPES, minst=2, depth=1, aug="{}", loop="FALSE", chain="FALSE", passon="FALSE", maxst=4),
+                  chains="TRUE", boolon="{}", ite="TRUE", calls='{"sub2", "pick", "loc", "ratio", "dflt"}', modes=ALLMODES, scopes=ALLSCOPES, minst=2, depth=1, aug="{}", loop="FALSE", chain="FALSE", passon="FALSE", maxst=4, ann="FALSE"),
     "core2": dict(arities="{1, 2}", locals='{"y", "z"}', consts='{"K", "H"}', un='{"neg"}',
                   bin='{"add", "sub", "mul", "div", "pow"}', chains="TRUE", boolon="{}", ite="TRUE",
                   calls='{"sub2", "subxy", "pick", "loc", "nest", "kmul", "ratio", "dflt"}', modes=ALLMODES, scopes=ALLSCOPES, minst=3, depth=2, aug="{}",
-                  loop="FALSE", chain="FALSE", passon="TRUE", maxst=4),
+                  loop="FALSE", chain="FALSE", passon="TRUE", maxst=4, ann="TRUE"),
     # just outside the subset: assignment to a parameter, augmented assignment, while / for loops (must be refused)
     "outside": dict(arities="{1, 2}", locals='{"y", "a"}', consts='{"K"}', un='{"neg"}', bin='{"add", "sub", "mul"}',
                     chains="FALSE", boolon="{}", ite="FALSE", calls='{"sub2"}', modes='{"pos", "kwrev"}', scopes='{"plain", "closure"}', minst=3, depth=1,
-                    aug='{"add", "mul", "sub"}', loop="TRUE", chain="TRUE", passon="TRUE", maxst=4),
+                    aug='{"add", "mul", "sub"}', loop="TRUE", chain="TRUE", passon="TRUE", maxst=4, ann="TRUE"),
     # guards: up to 6 statements, nested ifs / empty (pass) branches that fall through without binding anything,
     # followed by statements that re-bind a name (a local or a parameter) from its own old value
     "guard": dict(arities="{1, 2}", locals='{"y", "a"}', consts="{}", un="{}", bin='{"sub", "mul", "div"}',
                   chains="FALSE", boolon="{}", ite="FALSE", calls="{}", modes='{"pos"}', scopes='{"plain"}', minst=3, depth=1, aug="{}", loop="FALSE",
-                  chain="FALSE", passon="TRUE", maxst=6),
+                  chain="FALSE", passon="TRUE", maxst=6, ann="TRUE"),
     # the whole grammar (min / max / abs / and / or / not are refused by the translator today)
     "full": dict(arities="{2, 3}", locals='{"y", "z"}', consts='{"K", "H"}', un='{"neg", "abs"}',
                  bin='{"add", "sub", "mul", "div", "pow", "floordiv", "mod", "min", "max"}', chains="TRUE",
                  boolon='{"and", "or", "not"}', ite="TRUE",
                  calls='{"sub2", "subxy", "pick", "loc", "nest", "kmul", "ratio", "dflt"}', modes=ALLMODES, scopes=ALLSCOPES, minst=2, depth=2,
-                 aug='{"add"}', loop="TRUE", chain="TRUE", passon="TRUE", maxst=4),
+                 aug='{"add"}', loop="TRUE", chain="TRUE", passon="TRUE", maxst=4, ann="TRUE"),
 }
 
 
